@@ -125,6 +125,24 @@ class CallGraph:
                 strong(v)
         return out
 
+    def baseline_callers(self, target: FuncInfo, is_new) -> Set[FuncInfo]:
+        """Callers of `target`, looking through helpers introduced later (`is_new`): a new helper stands for the
+        functions that call it; a new function nobody calls stands for itself (an entry point of its own)."""
+        out: Set[FuncInfo] = set()
+        seen: Set[FuncInfo] = set()
+        todo = [target]
+        while todo:
+            cur = todo.pop()
+            for fn, node, how in self.callers(cur):
+                if fn in seen:
+                    continue
+                seen.add(fn)
+                if is_new(fn) and self.callers(fn):
+                    todo.append(fn)
+                else:
+                    out.add(fn)
+        return out
+
     def only_reached_through(self, target: FuncInfo, gate_names: Set[str], family: Set[str]) -> Tuple[bool, List[str]]:
         """True when every caller chain of `target` (within `family` classes) ends in a function
         whose name is in gate_names.  Returns (ok, offending caller keys)."""
